@@ -284,6 +284,9 @@ def check_error(e, exp):
     return True
 
 
+WARM = os.environ.get("XH_WARM", "0") == "1"
+
+
 def c19_attr(d: int, p1: bool, t0: int, t1: int) -> bool:
     """
     pre: 0 <= d <= DMAX
@@ -298,6 +301,15 @@ def c19_attr(d: int, p1: bool, t0: int, t1: int) -> bool:
             break
     if dc < 0:
         return True
+    if WARM:
+        # the same creating lines were reached before through a DIFFERENT caller chain (a decoy plan that is thrown away):
+        # an attribution that depends on anything but the current stack (e.g. frames cached per code line) shows up here
+        Rd = make_world(FAULT, p1, t0, t1)
+        dd = (dc + 2) % (DMAX + 1)
+        if BASE == "fresh":
+            _build_fresh(dd, Rd)
+        else:
+            _site(Rd) if dd == 0 else _nest(dd, Rd)
     R = make_world(FAULT, p1, t0, t1)
     if BASE == "fresh":
         _build_fresh(dc, R)
